@@ -54,7 +54,14 @@ def drain():
 
 
 def _exactable(v):
-    return isinstance(v, int) or (isinstance(v, float) and v == v and abs(v) != float("inf"))
+    """Only well-scaled exact data (integers, dyadic rationals k/64) is inside the property's domain; node LPs built
+    by solve_milp can carry float residue such as -1.1e-15 or 0.9999999999999956, for which an exact verdict
+    ("infeasible by 1e-15") is not what the property is about: those are judged by the certificate part only."""
+    if isinstance(v, bool):
+        return False
+    if isinstance(v, int):
+        return abs(v) <= 10**9
+    return isinstance(v, float) and v == v and abs(v) <= 1e9 and (v * 64.0).is_integer()
 
 
 def _tol(x):
